@@ -284,6 +284,18 @@ def check(ck):
         if isinstance(sn.ast, ast.Assign) and isinstance(sn.ast.targets[0], ast.Name):
             single_var = sn.ast.targets[0].id
 
+    # can the single dispatch hand back a Fault *object*?  (its exits: None, <x>.dump(), jsonrpclib.dump(...))
+    fsd_ = prog.func(SRV, DISP + "._marshaled_single_dispatch")
+    single_may_be_fault = False
+    for (rn_, val_) in q.return_sources(fsd_):
+        if q.is_none_expr(val_):
+            continue
+        tt_ = prov.origin(cfg_of(fsd_), rn_, val_)
+        for a_ in prov.value_alts(tt_):
+            dumped = a_[0] == "call" and ((a_[1][0] == "attr" and a_[1][2] == "dump") or (a_[1][0] == "global" and a_[1][1] == "dump"))
+            if not (dumped or a_ == ("const", None)):
+                single_may_be_fault = True
+
     def on_node(node, facts, data):
         if node.id == fb.id:
             return [(frozenset(), (0, False))]     # a new iteration starts
@@ -309,6 +321,12 @@ def check(ck):
             continue
         seen.add(key)
         n_iter += 1
+        if cnt == 0 and single_var is not None and not single_may_be_fault and \
+                any(k_.replace(" ", "") in ("isinstance(%s,Fault)" % single_var, "isinstance(%s,jsonrpclib.Fault)" % single_var) and v_ for (k_, v_) in facts):
+            # infeasible: every exit of _marshaled_single_dispatch yields a dumped dictionary or None, never a Fault object
+            ck.ok("C03.3", "%s: iteration on the branch `isinstance(%s, Fault)`" % (where, single_var),
+                  "dead: the single dispatch never returns a Fault object", q.loc(fu, fb))
+            continue
         if cnt == 0:
             none_ok = (not filtered) and single_var is not None and ((single_var + " is not None", False) in facts
                                                                      or (single_var + " is None", True) in facts)
